@@ -1904,6 +1904,8 @@ class PyCdlib:
                     self._rr_moved_rr_name, self.logical_block_size,
                     False, False, self.xa, 0o040555, time.time())
         num_bytes_to_add = self._add_child_to_dr(rec)
+        # A long Rock Ridge name has part of itself in a Continuation Area.
+        num_bytes_to_add += self._update_rr_ce_entry(rec)
 
         self._create_dot(self.pvd, rec, self.rock_ridge, self.xa, 0o040555)
         self._create_dotdot(self.pvd, rec, self.rock_ridge, False, self.xa,
@@ -5287,6 +5289,9 @@ class PyCdlib:
                     num_bytes_to_remove += parent.get_data_length()
                     if parent.ptr is not None:
                         num_bytes_to_remove += self._remove_from_ptr_size(parent.ptr)
+                    if parent.rock_ridge is not None and parent.rock_ridge.dr_entries.ce_record is not None and parent.rock_ridge.ce_block is not None:
+                        parent.rock_ridge.ce_block.remove_entry(parent.rock_ridge.dr_entries.ce_record.offset_cont_area,
+                                                                parent.rock_ridge.dr_entries.ce_record.len_cont_area)
 
                     # The relocation directory is gone; the next relocation
                     # has to make a new one.
